@@ -11,7 +11,8 @@ def is_str(value: str) -> None:
 
 def is_url(value: str) -> None:
     is_str(value)
-    if not value.startswith(("http://", "https://")):
+    # the scheme of a URL is case-insensitive (RFC 3986, section 3.1)
+    if not value[:8].lower().startswith(("http://", "https://")):
         raise ValueError("must be a URL")
 
 
